@@ -412,7 +412,7 @@ PROPS["C06"] = {
     "level_note": "A wall-clock bound is an inherently fragile oracle: it is three orders of magnitude above normal and only a repeated hit is reported. Receive buffers are set on the listening socket (shrinking an established connection's buffer makes the kernel drop in-flight data).",
     "technique": "property-based testing (rapid) with fault injection at the endpoint: latency-bound watchdog + accounting identities",
     "assumptions": ["loopback TCP", "the scheduler gives the dispatcher goroutine CPU time within the bound"],
-    "quick": [R("TestPropBadEndpoint", 90), R("TestPropSilentEndpoint", 8), R("TestPropStutteringEndpoint", 3)],
+    "quick": [R("TestPropBadEndpoint", 90), R("TestPropSilentEndpoint", 8), R("TestPropStutteringEndpoint", 4)],
     "thorough": [R("TestPropBadEndpoint", 150, shards=8, timeout=3000), R("TestPropSilentEndpoint", 40, shards=4, timeout=3000), R("TestPropStutteringEndpoint", 12, shards=4, timeout=3000)],
 }
 
